@@ -19,6 +19,9 @@ pub use lend_join::{JoinLendIter, LendJoinType, RepeatableLendGet};
 pub use maybe::MaybeJoin;
 #[cfg(feature = "parallel")]
 pub use par_join::{JoinParIter, ParJoin};
+#[cfg(all(feature = "parallel", specs_verif))]
+#[doc(hidden)]
+pub use par_join::verif_split_fold;
 
 /// The purpose of the `Join` trait is to provide a way
 /// to access multiple storages at the same time with
